@@ -607,6 +607,9 @@ def replay(rec):
     hist = tuple(tup(o) for o in rec['hist'])
     for o in hist:
         h.replay(s, o)
-    h.step(s, tup(rec['op']), hist)
+    try:
+        h.step(s, tup(rec['op']), hist)
+    except AbortConfig:
+        pass
     v = list(rep.viol.values())
     return {'violation': bool(v), 'details': [x['explain'] for x in v]}
